@@ -44,7 +44,7 @@ Qed.
    SAME tree, and every symbol of every value stored anywhere in it -- node inputs, port sizes, resources,
    repetition counts and sequence fields, retained constraints, at every depth -- is in G.
    `compile_scoped` instantiates G with the preprocessed root's input parameters (plus the iterator symbols of
-   custom sequences, which are legitimately free in their terms; partial: they are admitted in every field, the
+   custom sequences, which are legitimately free in their terms; partial: they are allowed in every field, the
    stream checks that they occur in the terms only).  The stream runs compile_scoped on every generated case and
    reports when it does not answer although compile_routine does (hypothesis met at scale). *)
 Theorem C04_compiled_tree_closed : forall G fuel r inputs t,
